@@ -103,6 +103,11 @@ func (f *fixture) populate() (err error) {
 		if err = w.WriteFile(dir+"out/out", []byte(outMarker), 0644); err != nil {
 			return err
 		}
+		// a sibling whose name extends the name of the next directory on the chain ("v" next to "vx"):
+		// a containment test without a separator boundary would let it through
+		if err = w.WriteFile(dir+seg+"x/out", []byte(outMarker), 0644); err != nil {
+			return err
+		}
 		dir += seg + "/"
 	}
 	if err = w.WriteFile(dir+"in/in", []byte(inMarker), 0644); err != nil {
@@ -261,7 +266,7 @@ func (f *fixture) settle() string {
 	return res
 }
 
-var outsideNames = map[string]bool{"out": true}
+var outsideNames = map[string]bool{"out": true, "vx": true, "wx": true}
 
 func lastSeg(p string) string {
 	segs := strings.Split(p, "/")
@@ -426,6 +431,34 @@ func Forms(p string) []fsmodel.Op {
 		}
 		out = append(out, fsmodel.Op{Op: cop, Path: p, Path2: "new"}, fsmodel.Op{Op: cop, Path: src, Path2: p}, fsmodel.Op{Op: cop, Path: p, Path2: p})
 	}
+	return out
+}
+
+// SibOf returns the name of the sibling directory that extends the view root's own name.
+func SibOf(kind string) string {
+	c := chainOf(kind)
+	return c[len(c)-1] + "x"
+}
+
+// PathsSib enumerates all paths of 1..depth segments over the alphabet plus the sibling
+// name that contain the sibling name at least once.
+func PathsSib(depth int, sib string) []string {
+	alpha := []string{"in", "out", ".", "..", "", sib}
+	var out []string
+	var rec func(prefix []string, d int, has bool)
+	rec = func(prefix []string, d int, has bool) {
+		if len(prefix) > 0 && has {
+			p := strings.Join(prefix, "/")
+			out = append(out, p, "/"+p)
+		}
+		if d == 0 {
+			return
+		}
+		for _, a := range alpha {
+			rec(append(append([]string{}, prefix...), a), d-1, has || a == sib)
+		}
+	}
+	rec(nil, depth, false)
 	return out
 }
 
